@@ -246,9 +246,9 @@ def strptime_guards(run: Run, model: PyModel) -> None:
     long_ok = try_parses(f"{D}.is_long_date_spec", ("_from_long_date_spec", "strptime"))
     fz = model.func(f"{D}.is_zid")
     zid_ok = _true_implies_call(fz.node, "is_short_date_spec")
-    run.check("C08.R1", "is_short_date_spec accepts only strings strptime can parse", short_ok, "is_short_date_spec", "no try/parse/except ValueError -> False",
-              "is_short_date_spec accepts digit strings that are not calendar dates (it does not try the parse it guards): `- 240230 x` reaches strptime in enterId and compiling a VALID page dies with ValueError",
-              file="src/zorg/shared/dates.py", node=model.func(f"{D}.is_short_date_spec").node)
+    from ..daterules import short_date_recogniser_agrees
+
+    short_ok = short_date_recogniser_agrees(run, model, "C08.R1")
     run.check("C08.R1", "is_long_date_spec accepts only strings strptime can parse", long_ok, "is_long_date_spec", "no try/parse/except ValueError -> False",
               "is_long_date_spec accepts strings that are not calendar dates: a DATE token such as 2024-02-30 reaches strptime in enterDate", file="src/zorg/shared/dates.py", node=model.func(f"{D}.is_long_date_spec").node)
     run.check("C08.R1", "is_zid is True only when is_short_date_spec accepted the date part", zid_ok, "is_zid", "date part unchecked", "is_zid does not validate the date part of a ZID", file="src/zorg/shared/dates.py", node=fz.node)
